@@ -133,6 +133,8 @@ class AggSim:
 def close_case(c):
     """used while shrinking: replay the ops on the position-only simulation and append the completions that an
     outstanding access / blocked destructor still needs (closed-case rule of the oracle)"""
+    if c.engine.startswith("aggc"):
+        return c
     ops = [list(o) for o in c.ops]
     ha = c.engine == "aggr1"
     scripts, built, sim = [], False, None
@@ -335,8 +337,8 @@ def obs_equal(case, m, i):
     """with two or more throwing sources the code of the reported exception depends on the pop order of the
     finished sources, which the value trace does not reveal: compare such lines by kind only (the oracle checks that
     the code is the code of one of the throwing sources)"""
-    if m == i:
-        return True
+    if m == i or case.engine.startswith("aggc"):
+        return True          # aggc: concurrent completions, no interleaving model - the oracle decides
     if len(m) != len(i) or n_throwers(case) < 2:
         return False
     for lm, li in zip(m, i):
@@ -373,7 +375,7 @@ def correspond2(ctx, part, cases):
             continue
         ctx.cov["evaluations"] += 1
         key = (c.engine, tuple(tuple(o) for o in c.ops))
-        if nontrivial(c, m) and key not in ctx.distinct:
+        if nontrivial(c, i if c.engine.startswith("aggc") else m) and key not in ctx.distinct:
             ctx.distinct.add(key)
         for o in c.ops:
             k = "%s:op%s" % (c.engine, o[0] if o else "")
@@ -396,9 +398,67 @@ def correspond2(ctx, part, cases):
             ctx.cov["samples"].append(c.to_json())
 
 
+def gen_ctl(seed, tier):
+    """engine aggc: the sources' pending awaits are completed concurrently by 1..3 completer threads under the
+    controlled-schedule driver; every case carries a schedule and runs under several of them"""
+    rng = random.Random(seed * 9576890767 % (2 ** 31) + 147)
+    quick = tier == "quick"
+    cases = []
+    b = 0
+    def script(s, ha, nvals, kind):
+        sc = [8, 0] if ha and rng.random() < 0.4 else []          # YieldNull only before the first suspension
+        gid = 100 + 10 * s
+        for j in range(nvals):
+            if kind != "sync" and rng.random() < (0.9 if kind == "pend" else 0.5):
+                sc += [3, 1]
+            if rng.random() < 0.2:
+                gid += 1; sc += [6, gid]
+            sc += [1, s * 1000 + j]
+        if kind != "sync" and rng.random() < 0.5:
+            sc += [3, 1]
+        if kind == "throw":
+            sc += [4, s + 1]
+        return sc
+    def one(eng, scripts, ncomp, nsched, destroy_early=None):
+        nonlocal b
+        ha = eng == "aggc1"
+        styles = [0, 2, 3, 4, 5, 6] if ha else [0, 1, 2, 3, 4, 5, 6]
+        styles = [y for y in styles if y != 5]
+        total = sum(sum(1 for i in range(0, len(sc) - 1, 2) if sc[i] == 1) for sc in scripts)
+        nacc = total + 2 if destroy_early is None else min(destroy_early, total)
+        ops = [[10] + sc for sc in scripts] + [[0], [8, ncomp]]
+        st = [rng.choice(styles)] if rng.random() < 0.3 else styles
+        for _ in range(nacc):
+            ops.append([1, rng.choice(st), rng.randint(100, 160) if ha else 0])
+        ops.append([3])
+        for _ in range(nsched):
+            sched = [9] + [rng.randint(0, 5) for _ in range(rng.randint(20, 200))]
+            cases.append(Case(eng, "m%d" % b, ops + [sched])); b += 1
+    fixed = [
+        [[3, 1, 1, 0, 3, 1, 1, 1, 3, 1, 1, 2], [3, 1, 1, 1000, 3, 1, 1, 1001], [1, 2000, 3, 1, 6, 120, 1, 2001], [3, 1, 1, 3000, 3, 1, 4, 5]],
+        [[3, 1, 1, 0, 3, 1, 1, 1], [3, 1, 1, 1000, 3, 1, 1, 1001], [3, 1, 1, 2000]],
+        [[3, 1, 1, s * 1000, 3, 1, 1, s * 1000 + 1, 3, 1] for s in range(6)],
+        [[3, 1, 1, 0], [3, 1, 1, 1000]],
+    ]
+    for eng in ("aggc0", "aggc1"):
+        for scs in fixed:
+            for ncomp in (2, 3):
+                one(eng, scs, ncomp, 3 if quick else 20)
+            one(eng, scs, 2, 2 if quick else 8, destroy_early=rng.randint(0, 3))
+    n = 40 if quick else 500
+    for i in range(n):
+        eng = "aggc0" if i % 2 == 0 else "aggc1"
+        ns = rng.choice([2, 3, 3, 4, 5, 6])
+        scripts = [script(s, eng == "aggc1", rng.randint(1, 4), rng.choice(["pend", "pend", "mixed", "sync", "throw"])) for s in range(ns)]
+        one(eng, scripts, rng.choice([1, 2, 2, 3]), 2 if quick else 4, destroy_early=rng.choice([None, None, 1, 2, 4]))
+    return cases
+
+
 def extra(ctx):
     correspond2(ctx, PARTS[0], gen(ctx.seed, ctx.tier))
+    correspond2(ctx, PARTS[1], gen_ctl(ctx.seed, ctx.tier))
 
 
 # the generated cases go through the two-pass correspondence (extra); the standard one-pass path runs the corpus only
-PARTS = [{"name": "vm_aggr", "harness": "vm_aggr.cpp", "gen": lambda seed, tier: [], "timeout_case": 3}]
+PARTS = [{"name": "vm_aggr", "harness": "vm_aggr.cpp", "gen": lambda seed, tier: [], "timeout_case": 3},
+         {"name": "ctl_aggrc", "harness": "vm_aggrc.cpp", "gen": lambda seed, tier: [], "timeout_case": 10}]
